@@ -499,6 +499,11 @@ class TableReport(ReportBase):
             elif column_id == "cost":
                 return self._get_cost_value(property_node, scenario_idx)
 
+            if column_id in ("start", "end") and self._is_unscheduled_task(property_node, scenario_idx):
+                # A task that could not be scheduled has no dates to report (a start
+                # may have been noted when its first slot was booked)
+                return None
+
             if self.is_scenario_specific(column_id):
                 return property_node.get(column_id, scenario_idx) if hasattr(property_node, "get") else None
             else:
@@ -506,6 +511,15 @@ class TableReport(ReportBase):
         except (ValueError, KeyError, AttributeError):
             # Unknown attribute - return placeholder
             return "-"
+
+    def _is_unscheduled_task(self, property_node: Any, scenario_idx: int) -> bool:
+        """True if the node is a task that the scheduler could not place."""
+        if not hasattr(property_node, "get"):
+            return False
+        try:
+            return property_node.get("scheduled", scenario_idx) is False
+        except (ValueError, KeyError, AttributeError):
+            return False  # not a task
 
     def _get_revenue_value(self, property_node: Any, scenario_idx: int) -> Any:
         """
